@@ -357,6 +357,32 @@ def rand_opt(rng, kind=None):
     return O(kind, rng.choice([0, 1, 5, 255, 65536, 2**31, 2**32 - 1, rng.getrandbits(32)]), rand_words(rng, 3 + OPT_ARITY[kind]))
 
 
+def t_rec(t):
+    return (t.dims, t.batch, t.words)
+
+
+def expected_file(kind, o, ws):
+    """Bytes the documented format prescribes for an object (maps in key order), built with the
+    encoder of this module — independent of the Lean model and of the code.  None: save must fail."""
+    if kind == "param":
+        if not o.valid:
+            return None
+        st = [(n, t_rec(o.stats[n])) for n in sorted(o.stats)] if ws else []
+        return file_header(0x200) + enc_param_record(t_rec(o.value), st)
+    if kind == "model":
+        if any(not q.valid for _, q in o):
+            return None
+        out = file_header(0x300) + mp_u32(len(o))
+        for path, q in sorted(o, key=lambda e: e[0]):
+            st = [(n, t_rec(q.stats[n])) for n in sorted(q.stats)] if ws else []
+            out += mp_arr_hdr(len(path)) + b"".join(mp_str(x) for x in path) + enc_param_record(t_rec(q.value), st)
+        return out
+    fk = BASE_FKEYS + OPT_KEYS[o.kind]
+    fe = sorted(zip(fk, o.words))
+    return (file_header(0x400) + mp_map_hdr(1) + mp_str(b"Optimizer.epoch") + mp_u32(o.epoch) +
+            mp_map_hdr(len(fe)) + b"".join(mp_str(k.encode()) + mp_f32w(v) for k, v in fe))
+
+
 def corpus(name):
     p = os.path.join(build.VERIF, "corpus", name)
     if not os.path.exists(p):
@@ -491,9 +517,12 @@ def run(chk):
         return "save opt %s" % o.tok()
 
     saves = []  # (line, kind, obj, ws)
+    expect_s = {}
     for kind, o in objs:
         for ws in ((0, 1) if kind != "opt" else (1,)):
             saves.append((save_line(kind, o, ws), kind, o, ws))
+            ef = expected_file(kind, o, ws)
+            expect_s[saves[-1][0]] = "err" if ef is None else "ok " + ef.hex()
     inv = P(False)
     extra_saves = ["save param 1 I", "save param 0 I",
                    "save model 1 " + model_tok([((b"a",), rand_param(rng, SHAPES[:4])), ((b"b", b"c"), inv)]),
@@ -551,6 +580,9 @@ def run(chk):
             return "a Parameter whose shape, value, gradient or statistics disagree after the call"
         if impl.startswith("ok undecodable"):
             return "the file written is not decodable by the independent decoder as a file of this kind"
+        if line in expect_s and impl != expect_s[line]:
+            return ("the file written (decoded by the independent decoder, map entries sorted) is not the documented encoding of the object: "
+                    "first difference at hex offset %d" % next((i for i, (a, b) in enumerate(zip(impl, expect_s[line])) if a != b), min(len(impl), len(expect_s[line]))))
         if line in expect_l and impl.rstrip() != expect_l[line].rstrip():
             return "load of a saved file does not reproduce the saved state: got `%s`, expected `%s`" % (impl[:160], expect_l[line][:160])
         return None
